@@ -97,6 +97,9 @@ func runSmall(c *core.Ctx) []core.Obligation {
 	smallWave19(c, b)
 	smallWave19b(c, b)
 	smallOverflowConsumesNumber(c, b)
+	smallHeldPointerCycle(c, b)
+	smallWave20(c, b)
+	smallWave20b(c, b)
 	smallStringOptionNull(c, b)
 	smallStringOptionMarshaler(c, b)
 	return b.out
@@ -3804,13 +3807,36 @@ func smallDepthNotCountedTwice(c *core.Ctx, b *ob) {
 		if fn.Blocks == nil || !strings.HasPrefix(name, "json.(decoder).decode") || len(fn.Params) < 2 {
 			continue
 		}
-		// the increment: a store into the depth field of the receiver copy
-		var incs []*ssa.Store
+		// the increment: a store into the depth field of the receiver copy, directly or in a
+		// helper method called on the copy (d.tooDeep())
+		incrementsDepth := func(f *ssa.Function) bool {
+			if f == nil || f.Blocks == nil {
+				return false
+			}
+			for _, blk := range f.Blocks {
+				for _, in := range blk.Instrs {
+					if st, ok := in.(*ssa.Store); ok {
+						if fa, isFA := st.Addr.(*ssa.FieldAddr); isFA && fieldAddrID(fa) == "json.decoder.depth" {
+							if bo, isB := st.Val.(*ssa.BinOp); isB && bo.Op == token.ADD {
+								return true
+							}
+						}
+					}
+				}
+			}
+			return false
+		}
+		var incs []ssa.Instruction
 		for _, blk := range fn.Blocks {
 			for _, in := range blk.Instrs {
-				if st, ok := in.(*ssa.Store); ok {
-					if fa, isFA := st.Addr.(*ssa.FieldAddr); isFA && fieldAddrID(fa) == "json.decoder.depth" {
-						incs = append(incs, st)
+				switch x := in.(type) {
+				case *ssa.Store:
+					if fa, isFA := x.Addr.(*ssa.FieldAddr); isFA && fieldAddrID(fa) == "json.decoder.depth" {
+						incs = append(incs, x)
+					}
+				case *ssa.Call:
+					if f := staticCallee(x.Common()); f != nil && c.InRepo(f) && f.Signature.Recv() != nil && strings.HasSuffix(f.Signature.Recv().Type().String(), "*github.com/segmentio/encoding/json.decoder") && incrementsDepth(f) {
+						incs = append(incs, x)
 					}
 				}
 			}
@@ -3821,7 +3847,7 @@ func smallDepthNotCountedTwice(c *core.Ctx, b *ob) {
 		entry := fn.Params[1]
 		key := "depth:revalidation-not-counted-twice:" + name
 		bad := ""
-		calls, helped := 0, 0
+		calls, helped, entered := 0, 0, 0
 		for _, ci := range callsIn(fn) {
 			f := staticCallee(ci.Common())
 			if f == nil || len(ci.Common().Args) < 2 || f.Blocks == nil {
@@ -3850,6 +3876,11 @@ func smallDepthNotCountedTwice(c *core.Ctx, b *ob) {
 				if !forwards || decrements {
 					if forwards {
 						helped++
+						for _, inc := range incs {
+							if instrDominates(inc, ci.(ssa.Instruction)) {
+								entered++
+							}
+						}
 					}
 					continue
 				}
@@ -3868,10 +3899,22 @@ func smallDepthNotCountedTwice(c *core.Ctx, b *ob) {
 			for _, inc := range incs {
 				if instrDominates(inc, ci.(ssa.Instruction)) {
 					bad = c.InstrPos(ci)
+					entered++
 				}
 			}
 		}
 		n++
+		// sibling agreement: every container decoder finds the end of its container when an
+		// element fails with a type error (the caller goes on after it, and Unmarshal decides
+		// between the type error and trailing data on what is left)
+		{
+			k2 := "element-error:container-consumed:" + name
+			if entered > 0 {
+				b.addP([]string{"C02", "C05"}, core.Discharged, k2, c.FuncPos(fn), "on an element error the whole container is re-validated to find its end")
+			} else {
+				b.addP([]string{"C02", "C05"}, core.Violation, k2, c.FuncPos(fn), name+" returns an element's type error with the remainder where that element stopped, unlike its siblings, which re-validate their whole input to find the end of the container: Unmarshal then sees the rest of the array as trailing data and reports a SyntaxError for a valid document ([\"x\", 1] into *[2]int) where encoding/json reports the UnmarshalTypeError")
+			}
+		}
 		if bad != "" {
 			b.addP(props, core.Violation, key, bad, name+" re-validates its whole input — which begins with the container it already counted in d.depth — with the incremented decoder: the level is counted twice, and a valid document nested exactly 10000 deep whose innermost value has the wrong type is rejected with the syntax error \"exceeded max depth\" where encoding/json returns the UnmarshalTypeError")
 		} else {
@@ -5053,6 +5096,350 @@ func smallOverflowConsumesNumber(c *core.Ctx, b *ob) {
 			b.addP(props, core.Violation, key, bad, name+" returns its whole input as the remainder when the number overflows 64 bits: Parse(\"99999999999999999999 \\\"next\\\"\", &int64) hands back the number itself as unconsumed (for 300 into an int8 the remainder starts after the number), and the error text quotes the bytes that follow the number")
 		default:
 			b.addP(props, core.Discharged, key, c.FuncPos(fn), fmt.Sprintf("%d overflow return(s), each hands back what follows the number", n))
+		}
+	}
+}
+
+// S84 — decoding through a pointer held by an interface re-enters the decoder on that pointer
+// without consuming input. When the pointer leads back to the interface itself (var x I; x = &x)
+// the re-entry repeats for ever unless the interface is emptied first, as decodeInterface does
+// (*(*any)(p) = nil before d.parse(b, val)): the second visit then finds nothing to decode
+// through. Both functions that decode through a held pointer must clear the destination before
+// the re-entry.
+func smallHeldPointerCycle(c *core.Ctx, b *ob) {
+	props := []string{"C06", "C02"}
+	for _, name := range []string{"json.(decoder).decodeInterface", "json.(decoder).decodeMaybeEmptyInterface"} {
+		key := "held-pointer:interface-cleared-before-re-entry:" + name
+		fn := c.Lookup(name)
+		if fn == nil {
+			b.addP(props, core.Undecided, key, "-", name+" not found")
+			continue
+		}
+		n, bad := 0, ""
+		for _, ci := range callsIn(fn) {
+			f := staticCallee(ci.Common())
+			if f == nil || f.Name() != "parse" || len(ci.Common().Args) < 3 {
+				continue
+			}
+			// only the re-entry on the value held by the interface (not on the interface's own address)
+			arg := ci.Common().Args[2]
+			if mi, ok := arg.(*ssa.MakeInterface); ok {
+				if _, isPtrToIface := mi.X.Type().Underlying().(*types.Pointer); isPtrToIface && isIfaceType(mi.X.Type().Underlying().(*types.Pointer).Elem()) {
+					continue
+				}
+			}
+			n++
+			cleared := false
+			for _, blk := range fn.Blocks {
+				for _, in := range blk.Instrs {
+					switch x := in.(type) {
+					case *ssa.Store:
+						if isNilConst(x.Val) && isIfaceType(x.Val.Type()) && instrDominates(x, ci.(ssa.Instruction)) {
+							cleared = true
+						}
+					case *ssa.Call:
+						nm := calleeName(x.Common())
+						if (strings.HasSuffix(nm, "reflect.Value).Set") || strings.HasSuffix(nm, "reflect.Value).SetZero")) && instrDominates(x, ci.(ssa.Instruction)) {
+							cleared = true
+						}
+					}
+				}
+			}
+			if !cleared {
+				bad = c.InstrPos(ci)
+			}
+		}
+		switch {
+		case n == 0:
+			b.addP(props, core.Undecided, key, c.FuncPos(fn), "no re-entry through a held pointer found")
+		case bad != "":
+			b.addP(props, core.Violation, key, bad, name+" re-enters the decoder on the pointer held by the interface without emptying the interface first (its sibling decodeInterface does): with type I interface{}; var x I; x = &x the pointer leads back to the same interface, no input is consumed, and Unmarshal([]byte(\"1\"), &x) recurses until the stack is exhausted — a fatal error, not a returned one")
+		default:
+			b.addP(props, core.Discharged, key, c.FuncPos(fn), "the interface is cleared before the decoder is re-entered on the pointer it held")
+		}
+	}
+}
+
+// smallWave20 groups single-site clauses added after the twentieth round of seeded changes.
+func smallWave20(c *core.Ctx, b *ob) {
+	// S85 — thrift's protocol readers consume exactly what they decode: a source that is shared
+	// with later values (a stream of messages read with a new reader each, trailing bytes that
+	// Unmarshal must report) may not be drained into a read-ahead buffer of the library's own.
+	{
+		props := []string{"C04", "C08"}
+		key := "thrift:no-read-ahead"
+		bad := ""
+		for _, fn := range c.RepoFunctions() {
+			if fn.Blocks == nil || fn.Pkg == nil || fn.Pkg.Pkg.Name() != "thrift" {
+				continue
+			}
+			for _, ci := range callsIn(fn) {
+				n := calleeName(ci.Common())
+				if n == "bufio.NewReader" || n == "bufio.NewReaderSize" {
+					bad = c.InstrPos(ci) + " (" + shortName(fn) + ")"
+				}
+			}
+		}
+		if bad != "" {
+			b.addP(props, core.Violation, key, bad, "thrift wraps the caller's source in a bufio.Reader of its own: the read-ahead takes bytes that belong to whatever follows the value — the next message on the stream (decoded with a new reader: EOF), or the trailing bytes Unmarshal has to report")
+		} else {
+			b.addP(props, core.Discharged, key, "-", "no bufio.NewReader in package thrift: readers consume from the caller's source directly")
+		}
+	}
+	// S86 — structDecoder.required has one bit per field slot: structDecoder.decode sizes its
+	// "seen" bitmap from it and sets seen[i/64] for every field it decodes. The bitmap is made
+	// once, for all the fields, and never re-sliced shorter.
+	{
+		props := []string{"C04", "C08"}
+		key := "thrift:required-bitmap-covers-all-fields"
+		n, bad := 0, ""
+		for _, fn := range c.RepoFunctions() {
+			if fn.Blocks == nil || fn.Pkg == nil || fn.Pkg.Pkg.Name() != "thrift" {
+				continue
+			}
+			for _, blk := range fn.Blocks {
+				for _, in := range blk.Instrs {
+					st, ok := in.(*ssa.Store)
+					if !ok {
+						continue
+					}
+					fa, ok := st.Addr.(*ssa.FieldAddr)
+					if !ok || fieldAddrID(fa) != "thrift.structDecoder.required" {
+						continue
+					}
+					n++
+					for _, o := range origins(st.Val) {
+						if _, isMake := o.(*ssa.MakeSlice); !isMake {
+							bad = c.InstrPos(st)
+						}
+					}
+				}
+			}
+		}
+		switch {
+		case n == 0:
+			b.addP(props, core.Undecided, key, "-", "no store into structDecoder.required found")
+		case bad != "":
+			b.addP(props, core.Violation, key, bad, "structDecoder.required is replaced by something other than the bitmap made for all the fields (a shorter re-slice): structDecoder.decode sizes its seen bitmap from it and sets a bit for every decoded field, so a struct whose ids span more than 64 slots panics (index out of range) as soon as a field of a trimmed word is present")
+		default:
+			b.addP(props, core.Discharged, key, "-", fmt.Sprintf("%d store(s), each of a freshly made bitmap", n))
+		}
+	}
+	// S87 — growSlice moves the elements decoded so far into the larger array: CopySlice copies
+	// min(len(dst), len(src)) elements, so the destination is made with the source's length.
+	{
+		props := []string{"C03", "C12"}
+		key := "proto:growslice-copies-the-elements"
+		fn := c.Lookup("proto.growSlice")
+		if fn == nil {
+			b.addP(props, core.Undecided, key, "-", "proto.growSlice not found")
+		} else {
+			n, bad := 0, ""
+			for _, ci := range callsIn(fn) {
+				if !strings.HasSuffix(calleeName(ci.Common()), "runtime_reflect.MakeSlice") || len(ci.Common().Args) != 3 {
+					continue
+				}
+				n++
+				if !dependsOn(ci.Common().Args[1], func(x ssa.Value) bool {
+					call, ok := x.(*ssa.Call)
+					return ok && strings.HasSuffix(calleeName(call.Common()), "Slice).Len")
+				}) {
+					bad = c.InstrPos(ci)
+				}
+			}
+			switch {
+			case n == 0:
+				b.addP(props, core.Undecided, key, c.FuncPos(fn), "growSlice does not call MakeSlice")
+			case bad != "":
+				b.addP(props, core.Violation, key, bad, "growSlice makes the larger array with a length that is not the length of the slice being grown: CopySlice copies min(len(dst), len(src)) elements — none for a zero length — so every element decoded before a reallocation (the 11th, 21st, 41st … element of a repeated field) comes back as a zero value")
+			default:
+				b.addP(props, core.Discharged, key, c.FuncPos(fn), "the new array has the old length, CopySlice copies all the elements")
+			}
+		}
+	}
+	// S88 — a size function that answers with a constant for small values does so only where the
+	// encoding really has that many bytes: k bytes hold values below 2^(7k).
+	{
+		props := []string{"C03", "C16", "C12"}
+		n := 0
+		for _, fn := range c.RepoFunctions() {
+			name := shortName(fn)
+			if fn.Blocks == nil || fn.Pkg == nil || fn.Pkg.Pkg.Name() != "proto" || !strings.HasPrefix(fn.Name(), "sizeOf") {
+				continue
+			}
+			for _, r := range returnsOf(fn) {
+				if len(r.Results) != 1 {
+					continue
+				}
+				k, isK := constInt(r.Results[0])
+				if !isK || k < 1 || k > 9 {
+					continue
+				}
+				// guarded by a comparison of a computed value with a constant
+				for _, e := range dominatingEdges(r.Block()) {
+					bo, ok := e.ifi.Cond.(*ssa.BinOp)
+					if !ok {
+						continue
+					}
+					lim, isLim := constUint(bo.Y)
+					if _, xConst := constInt(bo.X); !isLim || xConst {
+						continue
+					}
+					if !isUnsignedInt(bo.X.Type()) {
+						continue
+					}
+					var maxIncl uint64
+					switch {
+					case bo.Op == token.LSS && e.succ == 0, bo.Op == token.GEQ && e.succ == 1:
+						if lim == 0 {
+							continue
+						}
+						maxIncl = lim - 1
+					case bo.Op == token.LEQ && e.succ == 0, bo.Op == token.GTR && e.succ == 1:
+						maxIncl = lim
+					default:
+						continue
+					}
+					n++
+					key := fmt.Sprintf("size-fast-path:%s:returns-%d", name, k)
+					if maxIncl >= uint64(1)<<(7*uint(k)) {
+						b.addP(props, core.Violation, key, c.InstrPos(r), fmt.Sprintf("%s answers %d byte(s) for values up to %#x, but %d byte(s) of varint hold values below %#x only: the size is one short for the boundary value (tag 0x80 is field 16 with the varint wire type), Marshal fails with a short buffer or writes a tag that reads as a continuation byte", name, k, maxIncl, k, uint64(1)<<(7*uint(k))))
+					} else {
+						b.addP(props, core.Discharged, key, c.InstrPos(r), fmt.Sprintf("constant %d only for values up to %#x", k, maxIncl))
+					}
+				}
+			}
+		}
+		if n == 0 {
+			b.addP(props, core.Info, "size-fast-path", "-", "no size function answers with a constant under a value test")
+		}
+	}
+	// S89 — Time.MarshalJSON rejects zone offsets of 24 hours and more; the offset ends the text
+	// as ±hh:mm unless the hours take three digits: encodeTime looks at the byte where the sign
+	// must be, six from the end.
+	{
+		props := []string{"C01"}
+		key := "time:offset-sign-position-checked"
+		fn := c.Lookup("json.(encoder).encodeTime")
+		if fn == nil {
+			b.addP(props, core.Undecided, key, "-", "json.(encoder).encodeTime not found")
+		} else {
+			found := false
+			for _, blk := range fn.Blocks {
+				for _, in := range blk.Instrs {
+					ia, ok := in.(*ssa.IndexAddr)
+					if !ok {
+						continue
+					}
+					sub, ok := ia.Index.(*ssa.BinOp)
+					if !ok || sub.Op != token.SUB {
+						continue
+					}
+					if k, isK := constInt(sub.Y); isK && k == 6 {
+						if _, isLen := lenArg(sub.X); isLen {
+							found = true
+						}
+					}
+				}
+			}
+			if found {
+				b.addP(props, core.Discharged, key, c.FuncPos(fn), "the byte six from the end (the sign of ±hh:mm) is examined")
+			} else {
+				b.addP(props, core.Violation, key, c.FuncPos(fn), "encodeTime validates the zone offset from its last two hour digits only and never looks at the byte where the sign must be: an offset of 100 hours or more whose last two hour digits are below 24 (time.FixedZone(\"\", 100*3600)) is written out, where encoding/json reports \"timezone hour outside of range [0,23]\"")
+			}
+		}
+	}
+}
+
+func isUnsignedInt(t types.Type) bool {
+	bt, ok := t.Underlying().(*types.Basic)
+	return ok && bt.Info()&types.IsUnsigned != 0
+}
+
+func smallWave20b(c *core.Ctx, b *ob) {
+	// S90 — object keys are strings: decodeString accepts the bare literal null (for string
+	// targets), so every container decoder that reads a key with it rejects null in key position
+	// first. Sibling agreement over the map and struct decoders.
+	{
+		props := []string{"C05", "C02"}
+		n := 0
+		for _, fn := range c.RepoFunctions() {
+			name := shortName(fn)
+			if fn.Blocks == nil || !(strings.HasPrefix(name, "json.(decoder).decodeMap") || name == "json.(decoder).decodeStruct") || fn.Parent() != nil {
+				continue
+			}
+			count := 0
+			for _, ci := range callsIn(fn) {
+				f := staticCallee(ci.Common())
+				if f == nil || f.Name() != "decodeString" || len(ci.Common().Args) < 3 {
+					continue
+				}
+				// the key: decoded into a local variable
+				al, isLocal := stripConv(ci.Common().Args[2]).(*ssa.Alloc)
+				if !isLocal || al.Comment != "key" {
+					continue // values may be null
+				}
+				count++
+				n++
+				key := fmt.Sprintf("object-key:null-rejected:%s#%d", name, count)
+				guarded := false
+				for _, e := range dominatingEdges(ci.(ssa.Instruction).Block()) {
+					// the test is made on the very bytes handed to decodeString (the function's
+					// entry test is about the whole object)
+					if call, ok := e.ifi.Cond.(*ssa.Call); ok && strings.HasSuffix(calleeName(call.Common()), "json.hasNullPrefix") && e.succ == 1 && len(call.Call.Args) == 1 && call.Call.Args[0] == ci.Common().Args[1] {
+						guarded = true
+					}
+				}
+				if guarded {
+					b.addP(props, core.Discharged, key, c.InstrPos(ci), "null is rejected before the key is decoded")
+				} else {
+					b.addP(props, core.Violation, key, c.InstrPos(ci), name+" decodes an object key with decodeString without rejecting the literal null first, unlike its siblings: decodeString accepts null (it is a value of string targets), so {null:1} is accepted and stored under the key \"\" where Valid and encoding/json reject the document")
+				}
+			}
+		}
+		if n == 0 {
+			b.addP(props, core.Undecided, "object-key:null-rejected", "-", "no key decoded with decodeString found in the map and struct decoders")
+		}
+	}
+	// S91 — parseEntered validates a container that its caller has already counted against the
+	// nesting limit: it may only be given the caller's own input. Given a child value, that
+	// value's nesting is counted one short and a document one level too deep is accepted.
+	{
+		props := []string{"C05", "C02", "C06"}
+		key := "depth:parse-entered-only-on-own-input"
+		pe := c.Lookup("json.(decoder).parseEntered")
+		if pe == nil {
+			b.addP(props, core.Info, key, "-", "no parseEntered helper")
+		} else {
+			n, bad := 0, ""
+			for _, fn := range c.RepoFunctions() {
+				if fn.Blocks == nil || !strings.HasPrefix(shortName(fn), "json.") || len(fn.Params) < 2 {
+					continue
+				}
+				for _, ci := range callsIn(fn) {
+					if staticCallee(ci.Common()) != pe || len(ci.Common().Args) < 2 {
+						continue
+					}
+					n++
+					own := true
+					for _, o := range origins(ci.Common().Args[1]) {
+						if o != ssa.Value(fn.Params[1]) {
+							own = false
+						}
+					}
+					if !own {
+						bad = c.InstrPos(ci) + " (" + shortName(fn) + ")"
+					}
+				}
+			}
+			switch {
+			case n == 0:
+				b.addP(props, core.Undecided, key, c.FuncPos(pe), "parseEntered is never called")
+			case bad != "":
+				b.addP(props, core.Violation, key, bad, "parseEntered, which takes one nesting level back because its caller already counted the container it validates, is applied to a value other than the caller's own input (a member being skipped): that value is validated one level too shallow, and a document nested 10001 deep is accepted where Valid and encoding/json report exceeded max depth")
+			default:
+				b.addP(props, core.Discharged, key, c.FuncPos(pe), fmt.Sprintf("%d call(s), each on the caller's own input", n))
+			}
 		}
 	}
 }
